@@ -21,9 +21,9 @@ Items == {"wv1", "wp1", "wp1b", "wc1", "wh1", "wf1", "wf1b", "wf2", "wm1", "wfa"
           "wzb", "wzo", "wac", "wfl", "wfl2", "wg2", "wg2p", "wg2b", "wg2a",
           \* classes without accessors (their load forms can be evaluated, see finding C19-F16) with a generic function of two
           \* required parameters and an :around method, a lambda as the value of a variable
-          "wcn", "wcn2", "wg3", "wg3a", "wg3b", "wl1"}
+          "wcn", "wcn2", "wg3", "wg3a", "wg3b", "wl1", "wi2"}
 Deps(i) == CASE i = "wp1b" -> {"wp1"} [] i = "wf1" -> {"wp1"} [] i = "wf1b" -> {"wf1"} [] i = "wf2" -> {"wf1"}
-             [] i = "wfam" -> {"wfa"} [] i = "wfb" -> {"wfa"} [] i = "wi1" -> {"wfb"} [] i = "wfm" -> {"wfa"} [] i = "wfc" -> {"wfm"}
+             [] i = "wfam" -> {"wfa"} [] i = "wfb" -> {"wfa"} [] i = "wi1" -> {"wfb"} [] i = "wi2" -> {"wfa"} [] i = "wfm" -> {"wfa"} [] i = "wfc" -> {"wfm"}
              [] i = "wcb" -> {"wca"} [] i = "wg1a" -> {"wca", "wg1"} [] i = "wg1b" -> {"wcb", "wg1a"}
              [] i = "wac" -> {"wzb"} [] i = "wfl2" -> {"wfl"} [] i = "wg2p" -> {"wg2"} [] i = "wg2b" -> {"wg2p"} [] i = "wg2a" -> {"wg2p"}
              [] i = "wcn2" -> {"wcn"} [] i = "wg3a" -> {"wcn", "wg3"} [] i = "wg3b" -> {"wcn2", "wg3"}
@@ -43,6 +43,8 @@ Text(i) == CASE i = "wv1" -> "(defvar wv1 '(1 \"two\" (3 . 4) #\\c sym :kw))"
              [] i = "wfm" -> "(defflavor wfm ((a 2)) (wfa))"
              [] i = "wfc" -> "(defflavor wfc ((a 1) (b 'sym)) (wfm))"      \* a is given again the default of the grandparent
              [] i = "wi1" -> "(defvar wi1 (make-instance 'wfb :a 10))"
+             \* an instance that holds another instance in two of its variables (reached along two paths)
+             [] i = "wi2" -> "(defvar wi2 (let ((leaf (make-instance 'wfa :a 7))) (make-instance 'wfa :a leaf :b leaf)))"
              [] i = "wca" -> "(defclass wca () ((x :initarg :x :initform 5 :accessor wca-x)))"
              [] i = "wcb" -> "(defclass wcb (wca) ((y :initform \"why\" :reader wcb-y)))"
              [] i = "wg1" -> "(defgeneric wg1 (o))"
@@ -67,7 +69,7 @@ Text(i) == CASE i = "wv1" -> "(defvar wv1 '(1 \"two\" (3 . 4) #\\c sym :kw))"
 \* the probes: Lisp text, evaluated and printed with prin1 (an error is the text "error")
 Probes == <<"wv1", "wp1", "wc1", "(gethash 'k wh1)", "(gethash \"s\" wh1)", "(hash-table-count wh1)", "(wf1 5)", "(wf1 1)", "(wf1 2 4)", "(wf2 1)", "(wf2 1 7 :c 8)", "(wm1 4)",
             "(send (make-instance 'wfa) :a)", "(send (make-instance 'wfa :a 4) :double)", "(send (make-instance 'wfb) :c)", "(send (make-instance 'wfb :a 6) :double)",
-            "(send wi1 :a)", "(send wi1 :c)", "(send (make-instance 'wfm) :a)", "(send (make-instance 'wfc) :a)", "(send (make-instance 'wfc) :b)", "(wca-x (make-instance 'wca))", "(wca-x (make-instance 'wcb :x 9))", "(wcb-y (make-instance 'wcb))",
+            "(send wi1 :a)", "(send wi1 :c)", "(send (send wi2 :a) :a)", "(send (send wi2 :b) :a)", "(send (make-instance 'wfm) :a)", "(send (make-instance 'wfc) :a)", "(send (make-instance 'wfc) :b)", "(wca-x (make-instance 'wca))", "(wca-x (make-instance 'wcb :x 9))", "(wcb-y (make-instance 'wcb))",
             "(wg1 (make-instance 'wca))", "(wg1 (make-instance 'wcb :x 2))", "(wpk:pf 3)",
             "(send (make-instance 'waa-child) :q)", "(send (make-instance 'waa-child) :s)", "(send (make-instance 'wzy-other) :r)",
             "(send (make-instance 'wfl2) :lst)", "(send (make-instance 'wfl2) :n)",
@@ -103,6 +105,8 @@ Expected(d, p) ==
     [] p = "(send (make-instance 'wfb :a 6) :double)" -> IF has("wfb") /\ has("wfam") THEN "12" ELSE err
     [] p = "(send wi1 :a)" -> IF has("wi1") THEN "10" ELSE err
     [] p = "(send wi1 :c)" -> IF has("wi1") THEN "3" ELSE err
+    [] p = "(send (send wi2 :a) :a)" -> IF has("wi2") THEN "7" ELSE err
+    [] p = "(send (send wi2 :b) :a)" -> IF has("wi2") THEN "7" ELSE err
     [] p = "(wca-x (make-instance 'wca))" -> IF has("wca") THEN "5" ELSE err
     [] p = "(wca-x (make-instance 'wcb :x 9))" -> IF has("wcb") THEN "9" ELSE err
     [] p = "(wcb-y (make-instance 'wcb))" -> IF has("wcb") THEN "\"why\"" ELSE err
@@ -139,7 +143,7 @@ Objs == << Obj("wv1", "'wv1", "(defvar wv1 ", ")"), Obj("wp1", "'wp1", "(defpara
            Obj("wh1", "'wh1", "(defvar wh1 ", ")"), Obj("wl1", "'wl1", "(defvar wl1 ", ")"), Obj("wf1", "'wf1", "", ""), Obj("wf2", "'wf2", "", ""), Obj("wm1", "'wm1", "", ""),
            Obj("wfa", "'wfa", "", ""), Obj("wfb", "'wfb", "", ""), Obj("wfm", "'wfm", "", ""), Obj("wfc", "'wfc", "", ""),
            Obj("wzb", "'wzz-base", "", ""), Obj("wzo", "'wzy-other", "", ""), Obj("wac", "'waa-child", "", ""),
-           Obj("wfl", "'wfl", "", ""), Obj("wfl2", "'wfl2", "", ""), Obj("wi1", "wi1", "(defvar wi1 ", ")"),
+           Obj("wfl", "'wfl", "", ""), Obj("wfl2", "'wfl2", "", ""), Obj("wi1", "wi1", "(defvar wi1 ", ")"), Obj("wi2", "wi2", "(defvar wi2 ", ")"),
            Obj("wca", "'wca", "", ""), Obj("wcb", "'wcb", "", ""), Obj("wcn", "'wcn", "", ""), Obj("wcn2", "'wcn2", "", ""),
            Obj("wg1", "'wg1", "", ""), Obj("wg3", "'wg3", "", ""),
            Obj("wg2", "'wg2-trace", "(defvar wg2-trace ", ")"), Obj("wg2", "'wg2", "", ""),
@@ -161,7 +165,7 @@ EmitState == Len(hist) < EmitFrom \/ PrintT(ToJson(Case(hist)))
 \* directed sessions: every group of items that belong together (a function with its redefinitions, a flavor family, a
 \* class hierarchy with its generic function, a generic function with its daemons ...) defined completely, and every two groups
 \* one after the other
-Groups == {<<"wp1", "wp1b", "wf1", "wf1b", "wf2">>, <<"wfa", "wfam", "wfb", "wi1", "wfm", "wfc">>, <<"wzb", "wzo", "wac">>, <<"wfl", "wfl2">>,
+Groups == {<<"wp1", "wp1b", "wf1", "wf1b", "wf2">>, <<"wfa", "wfam", "wfb", "wi1", "wfm", "wfc", "wi2">>, <<"wzb", "wzo", "wac">>, <<"wfl", "wfl2">>,
            <<"wca", "wcb", "wg1", "wg1a", "wg1b">>, <<"wg2", "wg2p", "wg2b", "wg2a">>, <<"wg2", "wg2p", "wg2a", "wg2b">>,
            <<"wcn", "wcn2", "wg3", "wg3a", "wg3b">>, <<"wcn", "wcn2", "wg3", "wg3b", "wg3a">>,
            <<"wv1", "wc1", "wh1", "wm1", "wpk", "wl1">>}
